@@ -233,6 +233,12 @@ func clEpochTypesAgree(c *Ctx) {
 	} else if sz := types.SizesFor("gc", "amd64").Sizeof(ref.Type()); sz < 4 {
 		bad += fmt.Sprintf(" currSn is only %d bytes wide;", sz)
 	}
+	// the in-memory length of an item is as wide as the length prefix of the current file format
+	if fLen := p.Field("nitro", "Item", "dataLen"); true {
+		sz := types.SizesFor("gc", "amd64").Sizeof(fLen.Type())
+		c.Check(sz >= 4, p.Func("nitro", "Nitro", "allocItem"), nil, "Item.dataLen holds at least 32 bits (the v1 length prefix)",
+			fmt.Sprintf("Item.dataLen is %s: items of 64 KiB or more are stored with their length modulo 2^%d — Bytes() returns a prefix, distinct large items compare equal", fLen.Type(), 8*sz))
+	}
 	c.Check(bad == "", p.Func("nitro", "Nitro", "NewSnapshot"), nil, "epoch numbers (Item.bornSn/deadSn, Snapshot.sn, Nitro.currSn, lastGCSn) share one unsigned type of at least 32 bits",
 		"currSn is "+ref.Type().String()+";"+bad+" the narrower number wraps first: visibility (bornSn <= sn < deadSn) and the in-order GC frontier compare numbers from different rounds")
 }
